@@ -77,6 +77,9 @@ func conformingShape(rt *rapid.T, in sigInput) []int {
 			s[i] = d.size
 		} else {
 			s[i] = rapid.IntRange(1, 9).Draw(rt, "dyn")
+			if rapid.IntRange(0, 11).Draw(rt, "bigDyn") == 0 {
+				s[i] = rapid.SampledFrom(bigExtents).Draw(rt, "bigDynExt")
+			}
 			if n*s[i] > 2000 {
 				s[i] = 1
 			}
